@@ -62,6 +62,7 @@ type OConfig struct {
 	PCrash     int    `json:"p_crash"` // per mille per step
 	PPartition int    `json:"p_partition"`
 	QuietSteps int    `json:"quiet_steps"` // trailing steps without faults (progress diagnostic)
+	AckCrash   bool   `json:"ack_crash,omitempty"` // biased fault schedule "a follower acknowledges, the leader commits, the follower crashes before it learns the commit index, the leader is cut off" (adversary.go)
 	// sync mode
 	Begin, End uint64
 	PFail      int `json:"p_fail"`
@@ -101,6 +102,7 @@ func Generate(prop string, r *sim.Rand, tier string) *sim.Plan {
 	if r.Chance(0.5) {
 		cfg.PPartition = []int{1, 3, 6}[r.Intn(3)]
 	}
+	cfg.AckCrash = cfg.Kind == "raft" && cfg.Nodes == 3 && r.Chance(0.35)
 	return &sim.Plan{Config: sim.MustJSON(cfg)}
 }
 
@@ -433,6 +435,7 @@ type cluster struct {
 	lateTx          map[string]bool // transactions whose broadcast reached some pool only after they were committed
 	lastFaultStep   int
 	step            int
+	adv             *ackCrash
 }
 
 func (c *cluster) vio(oracle, discr, f string, a ...any) {
@@ -920,6 +923,9 @@ func runCluster(cfg OConfig, seed uint64, res *sim.Result, tp *tape, base string
 		}
 		time.Sleep(time.Duration(n.id*137) * time.Microsecond) // staggered start: no two tickers share a deadline
 	}
+	if cfg.AckCrash && cfg.Kind == "raft" && cfg.Nodes == 3 {
+		c.adv = &ackCrash{}
+	}
 	t0 := time.Now()
 	faultsUntil := cfg.Steps - cfg.QuietSteps
 	for c.step = 0; c.step < cfg.Steps; c.step++ {
@@ -929,6 +935,9 @@ func runCluster(cfg OConfig, seed uint64, res *sim.Result, tp *tape, base string
 			break
 		}
 		faults := c.step < faultsUntil
+		if faults && c.advStep() {
+			continue
+		}
 		if c.step == faultsUntil {
 			// faults stop: heal, restart everything that is down
 			for k := range c.net.cut {
